@@ -22,8 +22,8 @@ import (
 // PAttr is an attribute of a result type.
 type PAttr struct {
 	Name string `json:"name"`
-	Kind string `json:"kind"`           // str | int | arr (array of strings) | res | coll
-	Ref  string `json:"ref,omitempty"`  // res / coll: result type name
+	Kind string `json:"kind"`           // str | int | arr (array of strings) | res | coll | arrres (ArrayOf(result type)) | mapres (MapOf(String, result type)) | user (plain user type)
+	Ref  string `json:"ref,omitempty"`  // res / coll / arrres / mapres: result type name; user: plain type name
 	Meta string `json:"meta,omitempty"` // View("x") written on the attribute in the type definition
 	Req  bool   `json:"req,omitempty"`
 }
@@ -47,6 +47,7 @@ type PType struct {
 	Attrs     []PAttr `json:"attrs"`
 	Views     []PView `json:"views"`
 	NoDefault bool    `json:"no_default,omitempty"`
+	Plain     bool    `json:"plain,omitempty"` // plain user type (Type, not ResultType): no views
 }
 
 // PMethod returns a result type (or a collection of it), with the view chosen by the
@@ -63,6 +64,7 @@ type Pool struct {
 	Types   []*PType  `json:"types"`
 	Methods []PMethod `json:"methods,omitempty"`
 	Tag     string    `json:"tag,omitempty"` // corpus / random
+	Witness string    `json:"witness,omitempty"` // signature of the known finding this corpus design re-demonstrates
 }
 
 func (p *Pool) typ(n string) *PType {
@@ -101,7 +103,43 @@ func (v *PView) entry(a string) *PEntry {
 	return nil
 }
 
+// isRes: the attribute's type is itself a result type (direct or CollectionOf).
 func (a *PAttr) isRes() bool { return a.Kind == "res" || a.Kind == "coll" }
+
+// pointsTo: the attribute leads to another type of the pool.
+func (a *PAttr) pointsTo() bool { return a.Ref != "" }
+
+// container: array / map of result types, plain user type.
+func (a *PAttr) container() bool { return a.Kind == "arrres" || a.Kind == "mapres" || a.Kind == "user" }
+
+// node is what an attribute points to: a result type under a view, or a plain user type.
+// childNode gives the node behind attribute a of a node whose view is v, under entry e.
+func childNode(v string, e *PEntry, a *PAttr) (t, view string) {
+	if a.Kind == "user" {
+		return a.Ref, v
+	}
+	return a.Ref, nestedView(e, a)
+}
+
+// entriesOf lists the entries of a node: the view's attributes, or every attribute of a plain type.
+func (p *Pool) entriesOf(t, v string) (*PType, []PEntry, bool) {
+	ty := p.typ(t)
+	if ty == nil {
+		return nil, nil, false
+	}
+	if ty.Plain {
+		var es []PEntry
+		for _, a := range ty.Attrs {
+			es = append(es, PEntry{Attr: a.Name})
+		}
+		return ty, es, true
+	}
+	vw := ty.view(v)
+	if vw == nil {
+		return ty, nil, false
+	}
+	return ty, vw.Attrs, true
+}
 
 // nestedView: the view a nested result-type attribute is rendered with.
 func nestedView(e *PEntry, a *PAttr) string {
@@ -126,7 +164,7 @@ func normView(v string) string {
 func (p *Pool) design(name string) *dg.Design {
 	d := &dg.Design{Name: name}
 	for _, t := range p.Types {
-		ut := &dg.UserType{Name: t.Name, Result: true}
+		ut := &dg.UserType{Name: t.Name, Result: !t.Plain}
 		var fs []*dg.Field
 		for _, a := range t.Attrs {
 			f := &dg.Field{Name: a.Name, Required: a.Req}
@@ -141,6 +179,12 @@ func (p *Pool) design(name string) *dg.Design {
 				f.A.T = dg.Ref(a.Ref)
 			case "coll":
 				f.A.T = dg.Type{Kind: "collection", Ref: a.Ref}
+			case "arrres":
+				f.A.T = dg.ArrayOf(dg.A(dg.Ref(a.Ref)))
+			case "mapres":
+				f.A.T = dg.MapOf(dg.A(dg.Prim("String")), dg.A(dg.Ref(a.Ref)))
+			case "user":
+				f.A.T = dg.Ref(a.Ref)
 			}
 			f.A.View = a.Meta
 			fs = append(fs, f)
@@ -176,38 +220,43 @@ func (p *Pool) design(name string) *dg.Design {
 // ------------------------------------------------------ direct oracle: projections
 
 // specTree is the projection the property asks for, unfolded to depth k, printed in the
-// syntax of Views.Model.ptree (independent of goa and of the Coq model).
+// syntax of Views.Model.ptree (independent of goa and of the Coq model). A node is a result
+// type under a view or a plain user type (v = the view of the enclosing result type).
 func (p *Pool) specTree(t, v string, k int) string {
 	if k == 0 {
 		return "PCut"
 	}
-	ty := p.typ(t)
-	if ty == nil {
-		return "PErr"
-	}
-	vw := ty.view(v)
-	if vw == nil {
+	ty, es, ok := p.entriesOf(t, v)
+	if !ok {
 		return "PErr"
 	}
 	fs := "PNil"
-	for i := len(vw.Attrs) - 1; i >= 0; i-- {
-		e := vw.Attrs[i]
+	for i := len(es) - 1; i >= 0; i-- {
+		e := es[i]
 		a := ty.attr(e.Attr)
 		if a == nil {
 			continue
 		}
-		var sub string
-		switch a.Kind {
-		case "res":
-			sub = p.specTree(a.Ref, nestedView(&e, a), k-1)
-		case "coll":
-			sub = "(PColl " + p.specTree(a.Ref, nestedView(&e, a), k-1) + ")"
-		default:
-			sub = "PLeaf"
+		sub := "PLeaf"
+		if a.pointsTo() {
+			ct, cv := childNode(v, &e, a)
+			sub = p.specTree(ct, cv, k-1)
+			switch a.Kind {
+			case "coll":
+				sub = "(PColl " + sub + ")"
+			case "arrres":
+				sub = "(PArr " + sub + ")"
+			case "mapres":
+				sub = "(PMap " + sub + ")"
+			}
 		}
 		fs = fmt.Sprintf("(PCons %s %s %s)", coqA(e.Attr), sub, fs)
 	}
+	if ty.Plain {
+		return fmt.Sprintf("(PUser %s %s)", coqT(t), fs)
+	}
 	var req []string
+	vw := ty.view(v)
 	for _, a := range ty.Attrs {
 		if a.Req && vw.entry(a.Name) != nil {
 			req = append(req, coqA(a.Name))
@@ -304,6 +353,12 @@ func (p *Pool) coqEnv() string {
 				ty = "(TRes " + coqT(a.Ref) + ")"
 			case "coll":
 				ty = "(TColl " + coqT(a.Ref) + ")"
+			case "arrres":
+				ty = "(TArr " + coqT(a.Ref) + ")"
+			case "mapres":
+				ty = "(TMap " + coqT(a.Ref) + ")"
+			case "user":
+				ty = "(TUser " + coqT(a.Ref) + ")"
 			case "arr":
 				ty = "(TLeaf false)"
 			default:
@@ -312,6 +367,9 @@ func (p *Pool) coqEnv() string {
 			as = append(as, fmt.Sprintf("mkAttr %s %s %s %s", coqA(a.Name), ty, coqOptV(a.Meta), vh.CoqBool(a.Req)))
 		}
 		for _, v := range t.Views {
+			if t.Plain {
+				break
+			}
 			var es []string
 			for _, e := range v.Attrs {
 				es = append(es, fmt.Sprintf("(%s, %s)", coqA(e.Attr), coqOptV(e.View)))
@@ -327,7 +385,9 @@ func (p *Pool) coqEnv() string {
 
 var viewNames = []string{"tiny", "mid", "ext"}
 
-// randomPool draws a pool. maxTypes 1..4; recursion and overrides are frequent on purpose.
+// randomPool draws a pool: 1-4 result types and 0-2 plain user types. Recursion, overrides,
+// type-level view metas (also combined with overrides of the same attribute) and containers
+// (arrays / maps of result types, plain user types holding result types) are frequent on purpose.
 func randomPool(r *vh.RNG) *Pool {
 	p := &Pool{Tag: "random"}
 	n := 1 + r.Intn(4)
@@ -346,11 +406,31 @@ func randomPool(r *vh.RNG) *Pool {
 		}
 		p.Types = append(p.Types, t)
 	}
+	np := 0
+	if r.Chance(1, 2) {
+		np = 1 + r.Intn(2)
+	}
+	for i := 0; i < np; i++ {
+		p.Types = append(p.Types, &PType{Name: fmt.Sprintf("U%d", i), Plain: true})
+	}
+	var rts, plains []*PType
+	for _, t := range p.Types {
+		if t.Plain {
+			plains = append(plains, t)
+		} else {
+			rts = append(rts, t)
+		}
+	}
 	for i, t := range p.Types {
 		na := 2 + r.Intn(4)
+		prefix := "f"
+		if t.Plain {
+			prefix = "g"
+			i -= n
+		}
 		for j := 0; j < na; j++ {
-			a := PAttr{Name: fmt.Sprintf("f%d%d", i, j)}
-			switch k := r.Intn(10); {
+			a := PAttr{Name: fmt.Sprintf("%s%d%d", prefix, i, j)}
+			switch k := r.Intn(14); {
 			case k < 3:
 				a.Kind = "str"
 				a.Req = r.Chance(1, 2)
@@ -362,19 +442,39 @@ func randomPool(r *vh.RNG) *Pool {
 				a.Req = r.Chance(1, 4)
 			case k < 9:
 				a.Kind = "res"
-				a.Ref = p.Types[r.Intn(n)].Name
-			default:
+			case k < 10:
 				a.Kind = "coll"
-				a.Ref = p.Types[r.Intn(n)].Name
+			case k < 11:
+				a.Kind = "arrres"
+			case k < 12:
+				a.Kind = "mapres"
+			default:
+				if len(plains) > 0 {
+					a.Kind = "user"
+				} else {
+					a.Kind = "res"
+				}
 			}
-			if j == 0 && a.isRes() { // keep at least one plain attribute per type
-				a.Kind, a.Ref, a.Req = "str", "", true
+			switch a.Kind {
+			case "res", "coll", "arrres", "mapres":
+				a.Ref = rts[r.Intn(len(rts))].Name
+			case "user":
+				a.Ref = plains[r.Intn(len(plains))].Name
 			}
-			if a.isRes() && r.Chance(1, 8) {
+			if t.Plain {
+				a.Req = false // required-ness of plain types is not C08's business
+			}
+			if j == 0 && a.pointsTo() { // keep at least one plain attribute per type
+				a.Kind, a.Ref, a.Req = "str", "", !t.Plain
+			}
+			if a.isRes() && r.Chance(1, 3) { // View(...) in the type definition (rejected on arrays / maps / user types)
 				tv := p.typ(a.Ref).Views
 				a.Meta = tv[r.Intn(len(tv))].Name
 			}
 			t.Attrs = append(t.Attrs, a)
+		}
+		if t.Plain {
+			continue
 		}
 		for vi := range t.Views {
 			v := &t.Views[vi]
@@ -396,7 +496,8 @@ func randomPool(r *vh.RNG) *Pool {
 			}
 			for _, nm := range names {
 				e := PEntry{Attr: nm}
-				if a := t.attr(nm); a.isRes() && r.Chance(1, 2) {
+				a := t.attr(nm)
+				if a.pointsTo() && a.Kind != "user" && r.Chance(1, 2) {
 					tv := p.typ(a.Ref).Views
 					e.View = tv[r.Intn(len(tv))].Name
 				}
@@ -413,6 +514,39 @@ func randomPool(r *vh.RNG) *Pool {
 		}
 	}
 	return p
+}
+
+// hasContainers: some attribute is an array / map of result types or a plain user type.
+func (p *Pool) hasContainers() bool {
+	for _, t := range p.Types {
+		for _, a := range t.Attrs {
+			if a.container() {
+				return true
+			}
+		}
+	}
+	return false
+}
+
+// makeViewBlindSafe puts the pool inside the envelope in which the view-blind validation
+// below containers cannot be observed (known finding): if the pool has containers, every view
+// lists the required attributes of its type.
+func (p *Pool) makeViewBlindSafe() {
+	if !p.hasContainers() {
+		return
+	}
+	for _, t := range p.Types {
+		if t.Plain {
+			continue
+		}
+		for vi := range t.Views {
+			for _, a := range t.Attrs {
+				if a.Req && t.Views[vi].entry(a.Name) == nil {
+					t.Views[vi].Attrs = append(t.Views[vi].Attrs, PEntry{Attr: a.Name})
+				}
+			}
+		}
+	}
 }
 
 // corpusPools: fixed, seed-independent designs run first. They include the designs on
@@ -469,6 +603,44 @@ func corpusPools() []*Pool {
 		{Name: "Top", Attrs: []PAttr{{Name: "id", Kind: "int", Req: true}, {Name: "leaf", Kind: "res", Ref: "Leaf", Meta: "tiny"}, {Name: "s", Kind: "str"}, {Name: "plain", Kind: "res", Ref: "Plain"}, {Name: "leaves", Kind: "coll", Ref: "Leaf"}},
 			Views: []PView{{Name: "default", Attrs: []PEntry{e("id"), e("leaf"), e("plain"), e("leaves")}},
 				{Name: "ext", Attrs: []PEntry{e("leaves", "tiny"), e("leaf", "default"), e("id"), e("s")}}}}}})
+	// user-type memo key regression (1b755e8): a recursive plain user type that holds, before its
+	// self reference, a result type whose projection reaches the user type again
+	ps = append(ps, &Pool{Tag: "corpus:recursive-plain-type", Types: []*PType{
+		{Name: "R1", Attrs: []PAttr{{Name: "f10", Kind: "int"}, {Name: "f12", Kind: "user", Ref: "U0"}},
+			Views: []PView{{Name: "default", Attrs: []PEntry{e("f10"), e("f12")}}, {Name: "tiny", Attrs: []PEntry{e("f12"), e("f10")}}}},
+		{Name: "U0", Plain: true, Attrs: []PAttr{{Name: "g00", Kind: "str"}, {Name: "g01", Kind: "res", Ref: "R1"}, {Name: "g02", Kind: "user", Ref: "U0"}}}}})
+	// map-values regression (ad438c9): MapOf(String, result type) whose default view is a strict
+	// subset of the attributes, with and without an override on the map attribute
+	ps = append(ps, &Pool{Tag: "corpus:map-values", Types: []*PType{
+		{Name: "Inner", Attrs: []PAttr{{Name: "i1", Kind: "str", Req: true}, {Name: "i2", Kind: "int"}, {Name: "i3", Kind: "int"}},
+			Views: []PView{{Name: "default", Attrs: []PEntry{e("i1"), e("i2")}}, {Name: "tiny", Attrs: []PEntry{e("i1")}}}},
+		{Name: "Outer", Attrs: []PAttr{{Name: "a", Kind: "str", Req: true}, {Name: "c", Kind: "mapres", Ref: "Inner"}, {Name: "c2", Kind: "mapres", Ref: "Inner"}},
+			Views: []PView{{Name: "default", Attrs: []PEntry{e("a"), e("c"), e("c2")}}, {Name: "tiny", Attrs: []PEntry{e("a"), e("c", "tiny"), e("c2")}}}}}})
+	// type-level view meta x per-view override, all four combinations, single and collection
+	// (buildView appends the override to the meta list: the LAST one counts)
+	in3 := func() *PType {
+		return &PType{Name: "Inner", Attrs: []PAttr{{Name: "i1", Kind: "str", Req: true}, {Name: "i2", Kind: "int"}, {Name: "i3", Kind: "arr"}},
+			Views: []PView{{Name: "default", Attrs: []PEntry{e("i1"), e("i2"), e("i3")}}, {Name: "tiny", Attrs: []PEntry{e("i1")}}, {Name: "ext", Attrs: []PEntry{e("i1"), e("i3")}}}}
+	}
+	ps = append(ps, &Pool{Tag: "corpus:meta-override-combos", Types: []*PType{in3(),
+		{Name: "Outer", Attrs: []PAttr{{Name: "a", Kind: "str", Req: true},
+			{Name: "s00", Kind: "res", Ref: "Inner"}, {Name: "n", Kind: "int"}, {Name: "s10", Kind: "res", Ref: "Inner", Meta: "tiny"},
+			{Name: "c00", Kind: "coll", Ref: "Inner"}, {Name: "m", Kind: "str"}, {Name: "c10", Kind: "coll", Ref: "Inner", Meta: "tiny"}},
+			Views: []PView{{Name: "default", Attrs: []PEntry{e("a"), e("s00"), e("s10"), e("c00"), e("c10")}},
+				{Name: "ext", Attrs: []PEntry{e("a"), e("s00", "ext"), e("s10", "ext"), e("c00", "ext"), e("c10", "ext")}},
+				{Name: "tiny", Attrs: []PEntry{e("s10", "default"), e("c10", "default"), e("a")}}}}}})
+	// containers: arrays and maps of result types with and without overrides, a recursive plain
+	// user type holding a result type with a type-level view
+	ps = append(ps, &Pool{Tag: "corpus:containers", Types: []*PType{in3(),
+		{Name: "Wrap", Plain: true, Attrs: []PAttr{{Name: "n", Kind: "int"}, {Name: "x", Kind: "res", Ref: "Inner", Meta: "tiny"}, {Name: "y", Kind: "res", Ref: "Inner"},
+			{Name: "xs", Kind: "arrres", Ref: "Inner"}, {Name: "w", Kind: "user", Ref: "Wrap"}}},
+		{Name: "Outer", Attrs: []PAttr{{Name: "a", Kind: "str", Req: true},
+			{Name: "arr", Kind: "arrres", Ref: "Inner"}, {Name: "arr2", Kind: "arrres", Ref: "Inner"},
+			{Name: "mp", Kind: "mapres", Ref: "Inner"}, {Name: "mp2", Kind: "mapres", Ref: "Inner"},
+			{Name: "wrap", Kind: "user", Ref: "Wrap"}, {Name: "inner", Kind: "res", Ref: "Inner"}},
+			Views: []PView{{Name: "default", Attrs: []PEntry{e("a"), e("arr"), e("arr2", "tiny"), e("mp"), e("mp2", "ext"), e("wrap"), e("inner")}},
+				{Name: "tiny", Attrs: []PEntry{e("a"), e("arr", "tiny"), e("mp", "tiny"), e("inner", "tiny")}},
+				{Name: "ext", Attrs: []PEntry{e("wrap"), e("a"), e("arr2", "ext"), e("mp2")}}}}}})
 	return ps
 }
 
@@ -476,7 +648,7 @@ func corpusPools() []*Pool {
 func (p *Pool) key() string {
 	var sb strings.Builder
 	for _, t := range p.Types {
-		fmt.Fprintf(&sb, "%s%v|", t.Name, t.NoDefault)
+		fmt.Fprintf(&sb, "%s%v%v|", t.Name, t.NoDefault, t.Plain)
 		for _, a := range t.Attrs {
 			fmt.Fprintf(&sb, "%s:%s:%s:%s:%v,", a.Name, a.Kind, a.Ref, a.Meta, a.Req)
 		}
@@ -498,20 +670,37 @@ func (p *Pool) features() []string {
 		if t.NoDefault {
 			f["implicit_default_view"] = true
 		}
-		f[fmt.Sprintf("views=%d", len(t.Views))] = true
+		if t.Plain {
+			f["plain_user_type"] = true
+		} else {
+			f[fmt.Sprintf("views=%d", len(t.Views))] = true
+		}
 		for _, a := range t.Attrs {
-			if a.Kind == "coll" {
+			switch a.Kind {
+			case "coll":
 				f["collection_attr"] = true
+			case "arrres":
+				f["array_of_result_type"] = true
+			case "mapres":
+				f["map_of_result_type"] = true
+			case "user":
+				f["plain_user_type_attr"] = true
 			}
-			if a.isRes() && a.Ref == t.Name {
+			if t.Plain && a.pointsTo() && a.Kind != "user" {
+				f["result_type_inside_plain_type"] = true
+			}
+			if a.pointsTo() && a.Ref == t.Name {
 				f["self_recursive"] = true
 			}
-			if a.isRes() && a.Ref != t.Name && p.reaches(a.Ref, t.Name, map[string]bool{}) {
+			if a.pointsTo() && a.Ref != t.Name && p.reaches(a.Ref, t.Name, map[string]bool{}) {
 				f["mutually_recursive"] = true
 			}
 			if a.Meta != "" {
 				f["attr_view_meta"] = true
 			}
+		}
+		if t.Plain {
+			continue
 		}
 		for _, v := range t.Views {
 			sameType := map[string]int{}
@@ -519,8 +708,14 @@ func (p *Pool) features() []string {
 				a := t.attr(e.Attr)
 				if a.isRes() {
 					sameType[a.Kind+a.Ref]++
-					if e.View != "" {
-						f["view_override"] = true
+				}
+				if a.pointsTo() && e.View != "" {
+					f["view_override"] = true
+					if a.container() {
+						f["view_override_on_container"] = true
+					}
+					if a.Meta != "" {
+						f["override_on_attr_with_view_meta"] = true
 					}
 				}
 				if a.Req {
@@ -557,7 +752,7 @@ func (p *Pool) reaches(from, to string, seen map[string]bool) bool {
 		return false
 	}
 	for _, a := range t.Attrs {
-		if a.isRes() && (a.Ref == to || p.reaches(a.Ref, to, seen)) {
+		if a.pointsTo() && (a.Ref == to || p.reaches(a.Ref, to, seen)) {
 			return true
 		}
 	}
